@@ -9,7 +9,7 @@ import driver
 from props import c15_replay
 
 PROPERTIES_FILE = "Properties/Properties_C15.v"
-COQ_DEPS = ["Proofs/SrcData_proofs.vo", "Proofs/SrcLane_proofs.vo", "Proofs/SrcLaneR_proofs.vo"]
+COQ_DEPS = ["Proofs/SrcData_proofs.vo", "Proofs/SrcLane_proofs.vo", "Proofs/SrcLane_measure.vo", "Proofs/SrcLaneR_proofs.vo"]
 GEN_MODULES = ["Gen_srcdata", "Gen_dqstate"]
 LEVEL = "proof"
 TRUSTED = [
@@ -38,6 +38,12 @@ TRUSTED = [
     "inside rmw loops, flag loads outside the modelled tests, the target-queue push and reference counts are not model steps "
     "and are skipped by the reading.  A round that is not reproduced with the first order proposal is tried with up to eight "
     "others before it is reported",
+    "the global order is now searched for first (c15_replay.joint_order: depth-first over the actions that change a word, the "
+    "installed / cancel flags or the target-queue counter, earliest stamp first, so that every action sees what it recorded of "
+    "BOTH words; sound pruning; untrusted like the rest of the proposal); the separately built chains remain as fall-backs",
+    "termination of (B) (Proofs/SrcLane_measure.v): program-point conditional potential; every step and worker pick-up pays at least "
+    "1, a client call adds its constant (C15_every_step_pays, C15_worker_pickup_pays, C15_client_call_cost, C15_execution_bound); "
+    "not a fairness statement: it bounds the work between client calls, it does not say the target queue's workers run",
     "boundary of (B): the target queue is a counter of how many times the source sits in it and any idle thread may pop it; that "
     "the target queue eventually invokes what sits in it is C01 for the target.  Scope of (B): from the source as created (inactive) "
     "through activation, role inheritance and installation; up to 62 nested suspensions (no side counter), no over-resume; "
